@@ -1,7 +1,126 @@
-/- C02 property theorems (under construction) -/
+/-
+  C02 — what the user typed is preserved; filtering is exact prefix filtering.
+  Theorems about the model of the pipeline (`FilterPrefix`, sorting, integration) and of the
+  sanitizers; the formatter-specific part (common-prefix step) with its counterexample.
+-/
 import Carapace.Model.Shells
 import Carapace.Spec.FmtOracle
+import Carapace.Lemmas.Sort
+import Carapace.Lemmas.Sanitizer
+import Carapace.Props.C06
 
 namespace Carapace.Props.C02
+open Carapace Carapace.Model Carapace.Spec
+
+/-- **sound**: everything that passes the filter extends the typed word -/
+theorem filterPrefix_sound (ci : Bool) (vs : List RawValue) (w : Str) :
+    ∀ v ∈ filterPrefix ci vs w, matchHasPrefix ci v.value w = true := by
+  intro v hv
+  exact (List.mem_filter.mp hv).2
+
+/-- **complete**: everything that extends the typed word passes the filter -/
+theorem filterPrefix_complete (ci : Bool) (vs : List RawValue) (w : Str) (v : RawValue)
+    (hv : v ∈ vs) (h : matchHasPrefix ci v.value w = true) : v ∈ filterPrefix ci vs w :=
+  List.mem_filter.mpr ⟨hv, h⟩
+
+/-- the filter keeps the order and multiplicity: it is a sublist -/
+theorem filterPrefix_sublist (ci : Bool) (vs : List RawValue) (w : Str) :
+    (filterPrefix ci vs w).Sublist vs := List.filter_sublist
+
+/-- the candidates the pipeline hands to a formatter, when no messages are integrated:
+    exactly the (decoloured) candidates that extend the typed word — all of them when unfiltered *)-/
+theorem C02_pipeline_exact (sh : Str) (env : Env) (w : Str) (m : Meta) (vs : List RawValue)
+    (hm : m.messages = []) (x : RawValue) :
+    x ∈ (pipeline sh env w m vs).2 ↔
+      ∃ v ∈ (if env.colorDisabled then vs.map (fun v => { v with style := [] }) else vs),
+        (env.unfiltered = true ∨ matchHasPrefix env.ci v.value w = true) ∧ x = { v with uid := [] } := by
+  unfold pipeline
+  simp only [hm, integrate, List.isEmpty_nil, if_true, ite_self, List.mem_map, mem_sortBy]
+  by_cases hu : env.unfiltered = true
+  · simp only [hu, if_true, true_or, true_and]
+    constructor
+    · rintro ⟨v, hv, rfl⟩; exact ⟨v, hv, rfl⟩
+    · rintro ⟨v, hv, rfl⟩; exact ⟨v, hv, rfl⟩
+  · simp only [hu, Bool.false_eq_true, if_false, false_or, filterPrefix, List.mem_filter]
+    constructor
+    · rintro ⟨v, ⟨hv, hp⟩, rfl⟩; exact ⟨v, hv, hp, rfl⟩
+    · rintro ⟨v, hv, hp, rfl⟩; exact ⟨v, ⟨hv, hp⟩, rfl⟩
+
+/-- **unfiltered**: with CARAPACE_UNFILTERED the invoked set is passed through -/
+theorem C02_unfiltered_length (sh : Str) (env : Env) (w : Str) (m : Meta) (vs : List RawValue)
+    (hm : m.messages = []) (hu : env.unfiltered = true) : (pipeline sh env w m vs).2.length = vs.length := by
+  unfold pipeline
+  simp only [hm, integrate, List.isEmpty_nil, if_true, ite_self, hu, List.length_map, length_sortBy]
+  split <;> simp
+
+/-- the number of candidates handed to the formatter never exceeds the invoked set plus one
+    entry per message and the filler -/
+theorem C02_nothing_added (sh : Str) (env : Env) (w : Str) (m : Meta) (vs : List RawValue) (hm : m.messages = []) :
+    (pipeline sh env w m vs).2.length ≤ vs.length := by
+  unfold pipeline
+  simp only [hm, integrate, List.isEmpty_nil, if_true, ite_self, List.length_map, length_sortBy]
+  by_cases hc : env.colorDisabled = true <;> by_cases hu : env.unfiltered = true <;>
+    simp only [hc, hu, if_true, Bool.false_eq_true, if_false, List.length_map, Nat.le_refl]
+  · have := (filterPrefix_sublist env.ci (List.map (fun v => { v with style := [] }) vs) w).length_le
+    simpa using this
+  · exact (filterPrefix_sublist env.ci vs w).length_le
+
+/-! ### sanitising preserves "extends the typed word" -/
+
+theorem hasPrefix_iff (s p : Str) : Str.hasPrefix s p = true ↔ ∃ t, s = p ++ t := by
+  induction p generalizing s with
+  | nil => simp [Str.hasPrefix]
+  | cons d p ih =>
+    cases s with
+    | nil => simp [Str.hasPrefix]
+    | cons c s =>
+      simp only [Str.hasPrefix, Bool.and_eq_true, beq_iff_eq, ih, List.cons_append, List.cons.injEq]
+      constructor
+      · rintro ⟨rfl, t, rfl⟩; exact ⟨t, rfl, rfl⟩
+      · rintro ⟨t, rfl, rfl⟩; exact ⟨rfl, t, rfl⟩
+
+/-- a character-wise replacer is a monoid homomorphism, so prefixes are preserved:
+    if the value extends the typed word, the sanitised value extends the sanitised typed word -/
+theorem san_prefix (t : Replacer) (v w : Str) (h : Str.hasPrefix v w = true) :
+    Str.hasPrefix (san t v) (san t w) = true := by
+  obtain ⟨r, rfl⟩ := (hasPrefix_iff v w).mp h
+  apply (hasPrefix_iff _ _).mpr
+  exact ⟨san t r, by simp [san, Replacer.applyChars, List.flatMap_append]⟩
+
+/-- a typed word without tab / CR / LF is left alone by a sanitizer -/
+theorem san_id (t : Replacer) (w : Str) (h : ∀ c ∈ w, Replacer.lookup t c = none) : san t w = w := by
+  induction w with
+  | nil => rfl
+  | cons c w ih =>
+    have hc := h c (List.mem_cons_self ..)
+    have := ih (fun d hd => h d (List.mem_cons_of_mem _ hd))
+    simp only [san, Replacer.applyChars, List.flatMap_cons, Replacer.escChar, hc, Option.getD_none] at this ⊢
+    simp [this]
+
+/-- **fish** (a natively quoting format): every emitted value extends the typed word -/
+theorem C02_fish_sound (w : Str) (hw : ∀ c ∈ w, Replacer.lookup Gen.fish_sanitizer c = none)
+    (vs : List RawValue) (hv : ∀ v ∈ vs, Str.hasPrefix v.value w = true) :
+    ∀ v ∈ vs, Str.hasPrefix (san Gen.fish_sanitizer v.value) w = true := by
+  intro v hvm
+  have := san_prefix Gen.fish_sanitizer v.value w (hv v hvm)
+  rwa [san_id _ w hw] at this
+
+/-! ### bash / tcsh: the common-prefix step (finding `bash_common_prefix_not_extending`) -/
+
+/-- **false of the pinned code under case-insensitive matching**: typed `fo`, candidates `Foo`
+    and `FOX` (both match case-insensitively): bash emits the single text `F`, shorter than and
+    different from what was typed. -/
+theorem C02_bash_ci_counterexample :
+    bashFormat { ci := true } "fo".toList {} [{ value := "FOX".toList, display := "FOX".toList }, { value := "Foo".toList, display := "Foo".toList }]
+      = "true".toList ++ [Char.ofNat 1] ++ "F".toList := by decide
+
+/-- when the step is not taken the candidates are the pipeline's, one text per candidate -/
+theorem C02_bash_no_step_count (lastSegment dflt : Str) (vs : List RawValue)
+    (h : (commonStep lastSegment dflt vs).2 = false) : (commonStep lastSegment dflt vs).1 = vs := by
+  unfold commonStep at h ⊢
+  by_cases hc : (decide (vs.length > 1) && !(commonPrefixAll (·.display) vs).isEmpty) = true
+  · simp only [hc, if_true] at h
+    by_cases hl : (lastSegment != commonPrefixAll (·.value) vs) = true <;> simp [hl] at h
+  · simp [hc]
 
 end Carapace.Props.C02
